@@ -527,3 +527,28 @@ def canon_iteration_sums(v, length_of):
             return Rat.atom(Fn("loopsum", (body2, tag, (Rat.const(0), ns[0], Rat.const(1)))))
         return None
     return v.subst(f) if isinstance(v, Rat) else v
+
+
+def origin_guard(v, r):
+    """(value away from the origin, value at the origin) when v is  where(r == 0, v0, v1)  /  where(r != 0, v1, v0)  /
+    where(r > 0, v1, v0)  on the non-negative argument r, else (v, None).  A closed form that is 0 * infinity at r = 0
+    (x^(5/6) K_5/6(x)) has to be written like this to be evaluable there; the guard is legitimate exactly when v0 is the
+    limit of v1, which the caller checks."""
+    from .plf import Rat, Fn
+    a = v.single_atom() if isinstance(v, Rat) else None
+    if not (isinstance(a, Fn) and a.name == "where3" and isinstance(a.args[0], Rat)):
+        return v, None
+    c = a.args[0].single_atom()
+    if not (isinstance(c, Fn) and c.name == "cmp"):
+        return v, None
+    op, l, rr = c.args
+    if isinstance(l, Rat) and l.is_zero():
+        l, rr = rr, l
+        op = {"<": ">", ">": "<", "<=": ">=", ">=": "<="}.get(op, op)
+    if not (same_value(l, r) and isinstance(rr, Rat) and rr.is_zero()):
+        return v, None
+    if op == "==" or op == "<=":
+        return a.args[2], a.args[1]
+    if op in ("!=", ">"):
+        return a.args[1], a.args[2]
+    return v, None
